@@ -79,6 +79,9 @@ def setup(cache: bool = True) -> None:
         sys.modules["jax.util"] = m
         jax.util = m
         SHIM_INSTALLED = True
+    import warnings
+
+    warnings.filterwarnings("ignore", message=".*persistent compilation cache.*")
     logging.disable(logging.INFO)
     logging.getLogger("lcm").setLevel(logging.ERROR)
     _done = True
